@@ -53,6 +53,29 @@ def value(cname, k):
         return {'SO2': ref.rot2(3.0), 'SE2': ref.rt(ref.rot2(3.0), (1.0, 2.0)), 'SO3': ref.rotz(3.0), 'SE3': ref.rt(ref.rotz(3.0), (1.0, 2.0, 0.5)),
                 'Quaternion': np.array([0.5, 0, 0, 3.0]), 'UnitQuaternion': ref.r2q_ref(ref.rotz(3.0)), 'Twist2': np.array([1.0, 2.0, 3.0]),
                 'Twist3': np.array([1.0, 2.0, 3.0, 0, 0, 3.0])}[cname].copy()
+    if isinstance(k, str) and k.startswith('Z'):
+        # values held in INTEGER arrays (hand-typed quarter turns, integer translations and components: Quaternion([1, 2, 3, 4]), SE3(1, 2, 3))
+        j = int(k[1:])
+        q2 = [np.array([[1, 0], [0, 1]]), np.array([[0, -1], [1, 0]]), np.array([[-1, 0], [0, -1]]), np.array([[0, 1], [-1, 0]])][j % 4]
+        q3 = [np.eye(3, dtype=int), np.array([[0, -1, 0], [1, 0, 0], [0, 0, 1]]), np.array([[1, 0, 0], [0, 0, -1], [0, 1, 0]]), np.array([[0, 0, 1], [0, 1, 0], [-1, 0, 0]]),
+              np.array([[-1, 0, 0], [0, -1, 0], [0, 0, 1]])][j % 5]
+        if cname == 'SO2':
+            return q2.astype('int64')
+        if cname == 'SO3':
+            return q3.astype('int64')
+        if cname == 'SE2':
+            T = np.eye(3, dtype='int64'); T[:2, :2] = q2; T[:2, 2] = (1 + j, -2 * j)
+            return T
+        if cname == 'SE3':
+            T = np.eye(4, dtype='int64'); T[:3, :3] = q3; T[:3, 3] = (1 + j, 2, -3 * j)
+            return T
+        if cname == 'Quaternion':
+            return np.array([1 + j, 2, 3 - j, 4 + 2 * j], dtype='int64')
+        if cname == 'UnitQuaternion':
+            return np.array([[1, 0, 0, 0], [0, 1, 0, 0], [0, 0, -1, 0], [0, 0, 0, 1], [-1, 0, 0, 0]][j % 5], dtype='int64')
+        if cname == 'Twist2':
+            return np.array([1 + j, -2, j % 2], dtype='int64')
+        return np.array([1 + j, 2, -3, j % 2, 0, 1 - (j % 2)], dtype='int64')
     a = 0.17 * k + 0.05
     if cname == 'SO2':
         return ref.rot2(a)
@@ -471,6 +494,18 @@ def unary(ctx, cname):
                         ctx.fail(cidw, site, 'raises:' + type(resw).__name__, dict(P, mixed='wrap'), '%s on %d values alternating +3 / -3 rad raised %r' % (an, M, resw))
                     else:
                         compare(ctx, cidw, site, dict(P, mixed='wrap'), resw, sing, M)
+            # every value held in an integer array
+            ksz = ['Z%d' % j for j in range(M)]
+            cidz = cid + '/int'
+            if ctx.want(cidz):
+                oks, sing = call(lambda: [f(build(cname, [kk])) for kk in ksz])
+                if oks:
+                    ctx.case(cidz, key=cidz)
+                    okz, resz = call(f, build(cname, ksz))
+                    if not okz:
+                        ctx.fail(cidz, site, 'raises:' + type(resz).__name__, dict(P, mixed='int'), '%s on %d integer-typed values raised %r' % (an, M, resz))
+                    else:
+                        compare(ctx, cidz, site, dict(P, mixed='int'), resz, sing, M)
         # the same object reached through a history during which the accessor had already been used (item assignment over a
         # decoy, reverse of a reversed copy, append + pop): the M results are those of the values it holds NOW
         for tag, X in hist.variants(build(cname, ks), f, fresh=False):
